@@ -28,7 +28,7 @@ func init() {
 
 const fedHeader = `From Coq Require Import String List ZArith Bool.
 Import ListNotations.
-From GW Require Import Base.Res Base.Json Gql.Syntax Gql.Spec Gql.Guards Gw.Locate Gw.LocateCheck Gw.FedCheck.
+From GW Require Import Base.Res Base.Json Gql.Syntax Gql.Spec Gql.Guards Gw.Locate Gw.LocateCheck Gw.FedCheck Gw.Points Gw.PointsCheck.
 Local Open Scope string_scope.
 Local Open Scope bool_scope.
 `
@@ -296,19 +296,35 @@ func runFed(cfg *runCfg, prop string) error {
 	sh := NewSharder(cfg.Out, "cases_"+prop, fedHeader, 120_000)
 	doc := &CasesDoc{Property: prop, Seed: cfg.Seed, Tier: cfg.Tier, Dist: map[string]int{}}
 	var replay *fedCase
+	id := 0
 	if cfg.Replay != "" {
-		var rp struct {
+		var kind struct {
 			Case struct {
-				Input fedCase `json:"input"`
+				Kind  string          `json:"kind"`
+				Input json.RawMessage `json:"input"`
 			} `json:"case"`
 		}
-		if err := readJSON(cfg.Replay, &rp); err != nil {
+		if err := readJSON(cfg.Replay, &kind); err != nil {
 			return err
 		}
-		replay = &rp.Case.Input
+		if kind.Case.Kind == "points" {
+			pc := &ptCase{}
+			if err := json.Unmarshal(kind.Case.Input, pc); err != nil {
+				return err
+			}
+			pointsCases(r, sh, doc, &id, 1, pc)
+			if err := sh.Flush(); err != nil {
+				return err
+			}
+			doc.Shards = sh.Files
+			return doc.Write(cfg.Out)
+		}
+		replay = &fedCase{}
+		if err := json.Unmarshal(kind.Case.Input, replay); err != nil {
+			return err
+		}
 		n = 1
 	}
-	id := 0
 	for i := 0; i < n; i++ {
 		cs := replay
 		if cs == nil {
@@ -470,12 +486,18 @@ func runFed(cfg *runCfg, prop string) error {
 			id++
 		}
 	}
+	if replay == nil && usesPoints[prop] {
+		// the stitching functions on their own: generated selections, data and paths
+		pointsCases(r, sh, doc, &id, 3*n/2, nil)
+	}
 	if err := sh.Flush(); err != nil {
 		return err
 	}
 	doc.Shards = sh.Files
 	return doc.Write(cfg.Out)
 }
+
+var usesPoints = map[string]bool{"C01": true, "C04": true, "C07": true, "C13": true}
 
 // staticPath strips the realised parts (":index" and "#id") from a spawned insertion point
 func staticPath(p string) string {
